@@ -359,7 +359,11 @@ func runContractV2(s *Session, ops []cop) {
 						}
 						continue
 					}
-					amount = req.Target.Mul64(uint64(len(req.Accounts))) // every account starts empty
+					for _, a := range req.Accounts {
+						if a[0] != 255 { // accounts marked 255 are already at the target, the others empty
+							amount = amount.Add(req.Target)
+						}
+					}
 				}
 				var rev types.V2FileContract
 				var err error
@@ -709,7 +713,8 @@ func runContractV2(s *Session, ops []cop) {
 				case "fund-over":
 					amount = cur.RenterOutput.Value.Add(types.NewCurrency64(1))
 				}
-				if amount.IsZero() {
+				noop := kind == "replenish" && op.r[2]%4 == 0 // every account is already at its target: nothing to deposit
+				if amount.IsZero() && !noop {
 					continue
 				}
 				var rev types.V2FileContract
@@ -722,12 +727,21 @@ func runContractV2(s *Session, ops []cop) {
 					k := uint64(1 + op.r[1]%3)
 					target := amount.Div64(k)
 					if target.IsZero() {
-						continue
+						if !noop {
+							continue
+						}
+						target = types.NewCurrency64(1)
 					}
 					amount = target.Mul64(k)
 					r := &rhp4.RPCReplenishAccountsRequest{Target: target, ContractID: fcid, ChallengeSignature: types.Signature{1}}
 					for j := uint64(0); j < k; j++ {
 						r.Accounts = append(r.Accounts, rhp4.Account{byte(j + 1)})
+					}
+					if noop {
+						for j := range r.Accounts {
+							r.Accounts[j][0] = 255
+						}
+						amount = types.ZeroCurrency
 					}
 					verr = r.Validate()
 					req, id = r, rhp4.RPCReplenishAccountsID
